@@ -114,6 +114,13 @@ let parse_op (s : string) : mop =
   | "new_doc_with" -> ONewDocWith (ph f.(1))
   | x -> failwith ("unknown op " ^ x)
 
+(* operations beyond the core mutators (Model/Hist.v) *)
+let parse_hop (b : Interning.builtins) (s : string) : Hist.hop =
+  let f = Array.of_list (String.split_on_char ' ' s) in
+  match f.(0) with
+  | "rmws" -> Hist.HRemoveWs (ph f.(1), b.Interning.b_xml_space)
+  | _ -> Hist.HM (parse_op s)
+
 (* read-back of a state: roots sorted by slot, raw order, every node with its handle *)
 let show_state (st : xstate) : string =
   let hd i = nstr i ^ "." ^ string_of_int (int_of_z (stamp_of st i)) in
